@@ -1,0 +1,18 @@
+package udp
+
+import (
+	"net"
+	"time"
+)
+
+// ReadTXTimestampByID reads the transmit timestamp of the packet with the
+// given id. Timestamps of earlier packets, which were not yet available when
+// they were asked for, are discarded.
+func ReadTXTimestampByID(conn *net.UDPConn, id uint32) (time.Time, uint32, error) {
+	for {
+		ts, i, err := ReadTXTimestamp(conn)
+		if err != nil || int32(i-id) >= 0 {
+			return ts, i, err
+		}
+	}
+}
